@@ -1945,6 +1945,10 @@ class Parallel(Logger):
                     )
                 raise RuntimeError(msg)
             self._running = True
+            # Renew the call id in the same critical section, so that a
+            # completion callback of a previous (aborted) call can never be
+            # mistaken for one of this call while its state is being reset.
+            self._call_id = uuid4().hex
 
         # Batches sliced from the input of a previous call that failed or was
         # abandoned must not leak into this one.
@@ -1992,13 +1996,11 @@ class Parallel(Logger):
             next(output)
             return output if self.return_generator else list(output)
 
-        # Let's create an ID that uniquely identifies the current call. If the
-        # call is interrupted early and that the same instance is immediately
-        # reused, this id will be used to prevent workers that were
-        # concurrently finalizing a task from the previous call to run the
-        # callback.
-        with self._lock:
-            self._call_id = uuid4().hex
+        # The ID that uniquely identifies the current call has been renewed in
+        # _reset_run_tracking. If the call is interrupted early and the same
+        # instance is immediately reused, this id is used to prevent workers
+        # that were concurrently finalizing a task from the previous call to
+        # run the callback.
 
         # self._effective_n_jobs should be called in the Parallel.__call__
         # thread only -- store its value in an attribute for further queries.
